@@ -11,7 +11,7 @@ checks = {
    note="Bounded by depth and width; one function body. Inputs restricted to bodies whose if-branches are goto/block (else also if) without poisoned statements. Trusted: MIR dump, mirsym + models (owned reversed Vec iteration, nested Vec as label stack, slice::Iter::find, String equality on opaque tokens); encoding validated natively (guarded hook) on random bodies every run.",
    ref="DESIGN.md section 3, C04"),
  "C06": dict(cat="model_checking",
-   text="Placement rules of the syntax pass: src/alpha/analyzer/syntax.rs (Analyzable for FunctionBody, Block, Statement and their closures) is symbolically executed from MIR on a symbolic function body - statement trees of nesting depth <= 4 (thorough 5) with up to 2 (3) statements per body/block and symbolic lengths, all nine statement kinds, every if/else shape - and z3 decides that the output tree equals what the documented rules prescribe node by node: loop only as final statement of a braced block (E800 elsewhere in a block, E801 in a function body), if-branches goto or braced block, else also another if (E840), nothing else changes; the pass never panics.",
+   text="Placement rules of the syntax pass: src/alpha/analyzer/syntax.rs (Analyzable for FunctionBody, Block, Statement and their closures) is symbolically executed from MIR on a symbolic function body - statement trees of nesting depth <= 4 (thorough 5) with up to 2 statements per body/block and symbolic lengths, all nine statement kinds, every if/else shape - and z3 decides that the output tree equals what the documented rules prescribe node by node: loop only as final statement of a braced block (E800 elsewhere in a block, E801 in a function body), if-branches goto or braced block, else also another if (E840), nothing else changes; the pass never panics.",
    note="Bounded by nesting depth and block width. Also decided: linter.rs emits exactly one L1800 per braced branch that starts with loop and no other statement lint (depth 3 x width 2, depth 4 x width 1). Outside: the generator's assumption. Trusted: MIR dump, mirsym + models for owned Vec iteration (into_iter/map/collect, pop, push), Box, Option::map; the encoding is validated natively (guarded hook) on random statement trees every run.",
    ref="DESIGN.md section 3, C06"),
  "C07": dict(cat="model_checking",
